@@ -43,7 +43,8 @@ PRE = "from vmod import V\n"
 LOCAL = [
     ("def-x", "def x():\n    '''doc x'''"), ("class-y", "class y:\n    '''doc y'''\n    def m(self, p=1): ...\n    k = 1"), ("val-x", "x = V('{M}:x')"), ("val-y", "y = V('{M}:y')"), ("val-_p", "_p = V('{M}:_p')"),
 ]
-ALLS = [("all-x", "__all__ = ['x']"), ("all-y", "__all__ = ['y']"), ("all-x-_p", "__all__ = ['x', '_p']"), ("all-empty", "__all__ = []")]
+ALLS = [("all-x", "__all__ = ['x']"), ("all-y", "__all__ = ['y']"), ("all-x-_p", "__all__ = ['x', '_p']"), ("all-empty", "__all__ = []"),
+        ("all=all+y", "__all__ = __all__ + ['y']"), ("all=[*all,_p]", "__all__ = [*__all__, '_p']")]
 IMPORTS_FROM_B = [
     ("from-b-x", "from .b import x"), ("from-b-x-as-y", "from .b import x as y"), ("from-b-_p", "from .b import _p"), ("abs-from-b-y", "from pkg.b import y"),
     ("wild-rel-b", "from .b import *"), ("wild-abs-b", "from pkg.b import *"), ("import-pkg-b", "import pkg.b"), ("from-dot-b", "from . import b"),
@@ -53,6 +54,7 @@ A_MENU = LOCAL + ALLS + IMPORTS_FROM_B
 B_VARIANTS = {
     "b-plain": ["def-x", "class-y"], "b-vals": ["val-x", "val-_p"], "b-all-private": ["def-x", "val-_p", "all-x-_p"], "b-all-y": ["def-x", "class-y", "all-y"],
     "b-empty": [], "b-rebind": ["val-x", "def-x"], "b-y-only": ["val-y"],
+    "b-all-selfref": ["def-x", "class-y", "val-_p", "all-x", "all=all+y", "all=[*all,_p]"],
 }
 INIT_MENU = [
     ("none", ""), ("wild-rel-a", "from .a import *"), ("wild-abs-a", "from pkg.a import *"), ("from-a-x", "from .a import x"), ("from-a-y-as-x", "from .a import y as x"),
@@ -135,6 +137,8 @@ def _plausible(sel):
         if s in ("all+b", "all*b") and not bound_b:
             return False
         if s == "all+=b" and not (bound_b and has_all):
+            return False
+        if s in ("all=all+y", "all=[*all,_p]") and not has_all:
             return False
         if s == "from-dot-b":
             bound_b = True
